@@ -184,6 +184,10 @@ def run_and_judge(ctx, family, binp, lines, view, confirm=True):
     rejected, n = vlib.validate("Trace_Stateless", "Trace_Stateless.cfg", {"PROP": view}, events, os.path.join(wd, "val"))
     ctx.cov["traces_validated_against_impl"] += n
     ctx.cov["evaluations"] += n
+    nun = len(getattr(vlib.validate, "last_unvalidated", []))
+    if nun:
+        ctx.cov["unvalidated_tlc_overflow"] = ctx.cov.get("unvalidated_tlc_overflow", 0) + nun
+        log("[%s] %d event(s) could not be judged: TLC integer overflow while evaluating the contract" % (ctx.prop, nun))
     for l in lines:
         c = json.loads(l)
         ctx.cov["per_action"][c["op"]] = ctx.cov["per_action"].get(c["op"], 0) + 1
@@ -294,6 +298,8 @@ def lifecycle(ctx, view, variants=("exact", "exact_checks"), bfs=True, nsim=None
         nsh = min(vlib.NCPU, max(1, len(hists) // 20))
         shards = [hists[i::nsh] for i in range(nsh)]
 
+        unval = [0]
+
         def run(si):
             rejected = []
             todo = shards[si]
@@ -329,9 +335,19 @@ def lifecycle(ctx, view, variants=("exact", "exact_checks"), bfs=True, nsim=None
                                  env={"TRACE": tp}, workers=1, xmx="3g", timeout=3000)
                 import re
                 m = re.search(r"The depth of the complete state graph search is (\d+)", r["out"])
-                if not r["completed"] or not m:
+                overflow = "Overflow when computing" in r["out"]
+                if (not r["completed"] and not overflow) or not m:
                     raise MachineryFailure("Trace_Life did not complete: %s" % "\n".join(r["out"].splitlines()[-10:]))
                 depth = int(m.group(1))
+                if overflow:
+                    # TLC's integers overflowed while judging the step behind the accepted prefix: that history is
+                    # dropped as unvalidated (neither accepted nor rejected) and the rest of the shard goes on
+                    bad = min(depth, n - 1)
+                    hi = max(k for k, s0 in enumerate(starts) if s0 <= bad)
+                    unval[0] += 1
+                    steps += starts[hi]
+                    todo = todo[hi + 1:]
+                    continue
                 if depth >= n + 1:
                     steps += n
                     break
@@ -349,6 +365,10 @@ def lifecycle(ctx, view, variants=("exact", "exact_checks"), bfs=True, nsim=None
 
         with cf.ThreadPoolExecutor(nsh) as ex:
             results = list(ex.map(run, range(nsh)))
+        if unval[0]:
+            ctx.cov["unvalidated_histories_tlc_overflow"] = ctx.cov.get("unvalidated_histories_tlc_overflow", 0) + unval[0]
+            if unval[0] > max(10, len(hists) // 10):
+                raise MachineryFailure("TLC integer overflow on %d histories" % unval[0])
         for rejected, steps in results:
             ctx.cov["traces_validated_against_impl"] += steps
             ctx.cov["evaluations"] += steps
@@ -665,7 +685,7 @@ def c20(ctx):
     if "ContractOK" not in rb["violated"]:
         raise MachineryFailure("the negative control Bug_DropLastTerm=TRUE was not rejected: ExamplesAlg.ContractOK is vacuous")
     for variant in ("ex", "ex_san"):
-        stateless(ctx, "Ex", {"ExDiffusion", "ExPotential", "ExOscillator", "ExHydrogen"}, variant=variant)
+        stateless(ctx, "Ex", {"ExDiffusion", "ExPotential", "ExPotentialWin", "ExOscillator", "ExHydrogen"}, variant=variant)
     ctx.cov["explanation"] = ("TLC checked the std::vector preconditions of the diffusion solver's skeleton for every basis size 2..12 (and rejected the pinned "
                               "erase(end()) variant); the repository's example translation units were run on TLC-enumerated admissible inputs in a plain and an "
                               "ASan/UBSan/_GLIBCXX_DEBUG build; boundary values, scale invariance, straight line, eigenvalue shift, n+1/2 and -1/n^2 were "
